@@ -175,3 +175,13 @@ def sl_len_facts(ek: str, S: z3.ExprRef) -> list[z3.BoolRef]:  # noqa: N803
         z3.Implies(slt.is_nil(S), f(S) == 0),
         z3.Implies(slt.is_cons(S), z3.And(f(S) == 1 + f(slt.tl(S)), f(slt.tl(S)) >= 0)),
     ]
+
+
+def standin_findings(prop: str, standin: str) -> dict[str, str]:
+    """`finding:` lines of KNOWN_FINDINGS.txt that name a case of a bounded stand-in:
+    finding: property=<prop> standin=<standin> case=<case-id> <what fails>   ->   {case-id: text of the line}.
+    A stand-in that detects exactly such a case reports it under `known_lines` (printed as KNOWN-FINDING, exit 0);
+    anything else it detects is a violation.  Read only."""
+    from pyvc.report import load_known
+
+    return {k["case"]: k["text"] for k in load_known() if k["kind"] == "finding" and k.get("property") == prop and k.get("standin") == standin and "case" in k}
